@@ -70,15 +70,29 @@ def run(P, tier="quick"):
                 if m is not l and m.is_ancestor_of(l) and (best is None or best.is_ancestor_of(m)):
                     best = m
             return best
+        # destination-cell variables by role (not by name): an int local used as a subscript inside a nested item loop
+        # that is either a running counter (declared outside every item loop, incremented inside a nested one) or is
+        # computed inside the inner loop from the positions of both loops
         cands = {}
         for s_ in f.walk():
-            if s_.k == "ArraySubscriptExpr" and innermost(s_) is not None:
+            if s_.k == "ArraySubscriptExpr" and innermost(s_) is not None and parent_loop(innermost(s_)) is not None:
                 i = s_.kids[1].strip()
                 if i.k == "UnaryOperator" and i.op == "++":
                     i = i.kids[0].strip()
-                if i.k == "DeclRefExpr" and i.refkind == "local" and (i.ctype or "").replace("const ", "") == "int" and \
-                        "cell" in (i.refname or ""):
-                    cands[i.refdecl] = i
+                if not (i.k == "DeclRefExpr" and i.refkind == "local" and (i.ctype or "").replace("const ", "") == "int"):
+                    continue
+                vds_ = [v for v in f.walk() if v.k == "VarDecl" and v.get("decl") == i.refdecl]
+                if not vds_:
+                    continue
+                vd_ = vds_[0]
+                if innermost(vd_) is None:
+                    if any(m.k == "UnaryOperator" and m.op == "++" and m.kids[0].strip().refdecl == i.refdecl and
+                           innermost(m) is not None for m in f.walk()):
+                        cands[i.refdecl] = i
+                elif vd_.kids:
+                    li_, lo_ = innermost(vd_), parent_loop(innermost(vd_))
+                    if lo_ is not None and derived(vd_.kids[0], loop_var(li_), li_) and derived(vd_.kids[0], loop_var(lo_), lo_):
+                        cands[i.refdecl] = i
         for decl, ref in cands.items():
             key = "R40|%s|%s|fill:%s" % (FILE, f.name, ref.refname)
             vds = [v for v in f.walk() if v.k == "VarDecl" and v.get("decl") == decl]
